@@ -499,7 +499,9 @@ func (r *Runner) assignVal(name string, prev expand.Variable, as *syntax.Assign,
 	var indexes []int
 	if as.Append {
 		switch prev.Kind {
-		case expand.Unknown:
+		case expand.Unknown, expand.NameRef:
+			// A nameref which does not resolve to a variable (e.g. an empty
+			// target) is appended to like an unset variable.
 		case expand.String:
 			list = []string{prev.Str}
 		case expand.Indexed:
